@@ -36,11 +36,24 @@ def neg_nonzero(p, d, env):
     return False
 
 def oracle_case(res, ast, d, env, rng):
-    """property statement on the implementation; returns None or a violation payload"""
+    """property statement on the implementation; returns None or a violation payload.  An exception of the implementation on
+    this (legal) input is a failure of the property with this input as replay."""
+    try:
+        return _oracle_case(res, ast, d, env, rng)
+    except Exception as e:
+        return {"op": "evaluate_propositions", "model": ast_json(ast), "interpretation": {k: list(v) for k, v in d.items()},
+                "env": env, "problem": f"evaluate / evaluate_propositions raised {type(e).__name__}: {str(e)[:160]}"}
+
+def _oracle_case(res, ast, d, env, rng):
     m = build(ast)                       # fresh object: evaluate() may mutate (finding D2, property C09)
     ref = {}
     top = ref_eval_d(m, d, env, ref)
-    got = build(ast).evaluate_propositions(forms(d, rng))
+    try:
+        got = build(ast).evaluate_propositions(forms(d, rng))
+        build(ast).evaluate(forms(d, rng))
+    except Exception as e:
+        return {"op": "evaluate_propositions", "model": ast_json(ast), "interpretation": {k: list(v) for k, v in d.items()},
+                "env": env, "problem": f"evaluate / evaluate_propositions raised {type(e).__name__}: {str(e)[:160]}"}
     res.evaluations += 1
     want_ids = reachable_ids(m, d)
     bad = None
@@ -112,7 +125,12 @@ def run(res, tier, seed):
             fresh = build(ast)
             dump_in = lambda it, fresh=fresh: dump(fresh, it)
             mm = build(ast)
-            obs = {k: v.as_tuple() for k, v in mm.evaluate_propositions(forms(d, rng)).items()}
+            try:
+                obs = {k: v.as_tuple() for k, v in mm.evaluate_propositions(forms(d, rng)).items()}
+            except Exception as e:
+                res.violation("oracle", f"evaluate_propositions raised {type(e).__name__}: {str(e)[:160]} on {m!r} with {d}",
+                              {"op": "evaluate_propositions", "model": ast_json(ast), "interpretation": {k: list(v) for k, v in d.items()}, "env": env, "problem": f"raised {type(e).__name__}"})
+                continue
             top = obs[mm.id]
             cases.append((lambda it, f=dump_in, d=d, obs=obs, top=top: f"({dict_term(d, it)}, {f(it)}, {dict_term(obs, it)}, ({z(top[0])}, {z(top[1])}))", (ast, d, env)))
             res.sample({"model": repr(m), "interpretation": {k: list(v) for k, v in d.items()}, "result": {k: list(v) for k, v in obs.items()}})
